@@ -35,6 +35,11 @@ def run(ctx):
     ctx.rule('C09.e-handover-reset-complete', 'the work object a rate switch hands to the other dedicated codec is completely reconfigured by the explicit reset, so that the default codec equals a fresh dedicated one (clause shared with C05.a)')
     from . import resetrules
     ctx.guard('C09.analysable', ctx.shared, {'X.full': 'C09.e-handover-reset-complete'}, resetrules.check_reset_discipline, ctx, ctx.facts(cfgs[0]), cfgs[0], 'X.drop', 'X.recv', 'X.full')
+    ctx.rule('C09.f-any-engine', 'the wrappers and one-shot functions (default engine) give the bytes of the default-rate codec with any engine: the selectable engines are siblings (clauses shared with C03.a / C03.e)')
+    from . import c03
+    ctx.guard('C09.analysable', ctx.shared, {'C03.e-kernel-siblings': 'C09.f-any-engine'}, c03.kernel_siblings, ctx, {c: ctx.facts(c) for c in ('x86_64', 'aarch64')})
+    for c in ('x86_64', 'aarch64'):
+        ctx.guard('C09.analysable', ctx.shared, {'C03.a-schedule-siblings': 'C09.f-any-engine'}, c03.schedules, ctx, ctx.facts(c), c)
     for cfg in cfgs:
         facts = ctx.facts(cfg)
         ctx.guard('C09.analysable', check, ctx, facts, cfg)
